@@ -486,6 +486,23 @@ func vfGenC12(rt *rapid.T) vfC12Case {
 			}
 		}
 		cs.Rewrites = append(cs.Rewrites, rw)
+		// a length field may be validated against another peer-supplied field: inflate the companion field consistently
+		if rw.Typ == "HASH" && rw.Field == "step" && strings.HasPrefix(rw.Value, "int:") && rapid.Bool().Draw(rt, "companion") {
+			sender := "s2c"
+			if cs.Scen.Cfg.Upload {
+				sender = "c2s"
+			}
+			if cs.Scen.Cfg.Protocol >= 4 {
+				cs.Rewrites = append(cs.Rewrites, vfRewrite{Dir: sender, Typ: "NAME", Nth: rw.Nth, Field: "size", Value: rw.Value})
+			} else {
+				cs.Rewrites = append(cs.Rewrites, vfRewrite{Dir: sender, Typ: "SIZE", Nth: rw.Nth, Value: rw.Value})
+			}
+			break
+		}
+		if rw.Typ == "DATA" && strings.HasPrefix(rw.Value, "int:") && rapid.IntRange(0, 2).Draw(rt, "companion_cfg") == 0 {
+			cs.Rewrites = append(cs.Rewrites, vfRewrite{Dir: "s2c", Typ: "CFG", Nth: 0, Field: "bufsize", Value: rw.Value})
+			break
+		}
 	}
 	return cs
 }
